@@ -39,6 +39,21 @@ theorem C17_defineClass_keeps_earlier_classes (w w' : World) (k : ClsId) (bases 
     ∀ c ∈ w.classes, c ∈ w'.classes := by
   exact (defineClass_summary w w' k bases ns dbc hook h).2.2 hk
 
+/-- **A REFUSED class statement changes nobody else either.**  `DBCMeta.__new__` decorates the namespace before the class
+object exists, so a statement that is refused half-way (a weakening precondition, clashing snapshot names, an inconsistent
+MRO) has already re-bound the lists of its own member functions (`defineClassResidue`); but no existing list is
+written, no class and no hook registration changes, and the checker of every function that is not a member of the
+refused class is what it was. -/
+theorem C17_rejected_class_statement_stays_in_its_namespace (w : World) (bases : List ClsId)
+    (ns : List (String × Member)) :
+    Preserves w (defineClassResidue w bases ns) ∧
+    (defineClassResidue w bases ns).classes = w.classes ∧
+    (defineClassResidue w bases ns).hookCalls = w.hookCalls ∧
+    ∀ f, (∀ p ∈ ns, ∀ which, memberFnId p.2 which ≠ some f) →
+      (defineClassResidue w bases ns).checker? f = w.checker? f := by
+  have h := defineClassResidue_frame bases ns w
+  refine ⟨⟨h.heap.1, h.heap.2⟩, h.classes, h.hooks, fun f hf => h.checkers f (fun ⟨p, hp, which, hw⟩ => hf p hp which hw)⟩
+
 /-- hence the contracts of a function that the new class does not define are exactly what they were -/
 theorem C17_earlier_function_contracts_unchanged (w w' : World) (k : ClsId) (bases : List ClsId)
     (ns : List (String × Member)) (dbc hook : Bool)
